@@ -8,7 +8,7 @@ import subprocess
 import tempfile
 
 from .. import genparser
-from ..engine import AnalysisError, PropertySpec, norm
+from ..engine import AnalysisError, MechanismMissing, PropertySpec, norm
 from ..grammar import alt_operator_tokens, parse_grammar
 from ..pyutil import call_name, calls, const_str, dotted, is_name, literal, walk_local
 
@@ -59,7 +59,7 @@ def _table(ctx, R):
         tab[a["ctx"]] = a
     missing = [c for c in CTX.values() if c not in tab]
     if missing:
-        raise AnalysisError(R, "alternatives %s not found in generated expr()" % missing)
+        raise MechanismMissing(R, "alternatives %s not found in generated expr()" % missing)
     return gp, {k: tab[c] for k, c in CTX.items()}
 
 
